@@ -350,6 +350,7 @@ def body(ck):
                      "identical outputs follow from identical leaves only for deterministic XLA execution (explored: outputs compared bitwise)"]
     ck.build_coq()
     ck.compile_props()
+    ck.kernel_link()   # where serialize writes, regenerated from the source = Serial.resolve_name (coq/link/C18_link.v)
     rng = ck.rng
     quick = ck.tier == "quick"
     parent = tempfile.mkdtemp(prefix="c18-")
